@@ -31,7 +31,7 @@ func init() {
 		Oracle:   oracleC03,
 		Minimize: true,
 		Rule: "cases: byte soups over all 256 byte values, token/byte-level mutants of corpus and generated sentences, hostile lexical fragments " +
-			"as first token / after ';', every string of length <=4 (quick) or <=5 (thorough) over a 24-symbol lexical alphabet, and nesting probes; " +
+			"as first token / after ';', every string of length <=4 (quick) or <=5 (thorough) over a 24-symbol lexical alphabet, valid sentences (incl. one 120-330 element list), inputs of 1-4097 lines, and nesting probes; " +
 			"each is passed to all 11 public functions under recover and a 20 s watchdog. Non-trivial = the function did not accept the input " +
 			"cleanly (error or recovery path); distinct by hash of (entry point, input).",
 		Assumptions: []string{
